@@ -208,6 +208,60 @@ func c18(c *core.Ctx) {
 			fn := c.Fn(tp + ".TxPool." + f)
 			c.Check(f+"→getSubTxs", "sibling-agreement", len(core.CallsIn(fn, sub)) == 1, fn.Pos(), "%s expands the sub-txs of a box like its siblings", f)
 		}
+		// only a box has sub transactions: the data of an ordinary transaction is free text and may well parse as a box, so every expansion
+		// is on the equal edge of `tx.Type() == BoxTx` for the expanded transaction (at the site, or inside getSubTxs before the decode)
+		boxK := c.Const("chain/params.BoxTx")
+		typeOf := c.Method("chain/types.Transaction", "Type")
+		typedEdge := func(fn *ssa.Function, txv ssa.Value, at *ssa.BasicBlock) bool {
+			for _, b := range fn.Blocks {
+				ifi := ifOf(b)
+				if ifi == nil {
+					continue
+				}
+				bo, isB := ifi.Cond.(*ssa.BinOp)
+				if !isB || (bo.Op != token.EQL && bo.Op != token.NEQ) {
+					continue
+				}
+				var other ssa.Value
+				switch {
+				case constEquals(bo.X, boxK):
+					other = bo.Y
+				case constEquals(bo.Y, boxK):
+					other = bo.X
+				default:
+					continue
+				}
+				g, isT := isCallOf(other, typeOf)
+				if !isT || len(g.Common().Args) == 0 || !sameRead(g.Common().Args[0], txv) {
+					continue
+				}
+				eq := b.Succs[0]
+				if bo.Op == token.NEQ {
+					eq = b.Succs[1]
+				}
+				if (eq == at || eq.Dominates(at)) && len(eq.Preds) == 1 {
+					return true
+				}
+			}
+			return false
+		}
+		subFn := c.Fn(tp + ".getSubTxs")
+		inside := false
+		for _, g := range core.CallsIn(subFn, c.FuncObj("chain/types.GetBox")) {
+			if typedEdge(subFn, subFn.Params[0], g.Block()) {
+				inside = true
+			}
+		}
+		nExp := 0
+		for _, s := range c.CallSites(sub) {
+			if isTestHelper(c, s.Caller) {
+				continue
+			}
+			nExp++
+			a := s.Instr.Common().Args
+			c.Check("getSubTxs:only-for-a-box@"+shortFn(s.Caller), "guarded-action", inside || (len(a) == 1 && typedEdge(s.Caller, a[0], s.Instr.Block())), s.Instr.Pos(), "the sub transactions of a transaction are looked at only when its type is BoxTx")
+		}
+		c.Floor("getSubTxs/sites", nExp, 4)
 		// deleting a box removes its sub transactions whether or not the box itself is in this pool (it may have been packaged by another
 		// miner): in delTx the expansion is skipped only for a nil transaction or a transaction that is not a box
 		dfn := c.Fn(tp + ".TxPool.delTx")
@@ -298,6 +352,41 @@ func c18(c *core.Ctx) {
 			}
 		}
 		c.Check("saveNewBlock:current-changed→onCurrentChanged,else→AddTxs(block.Txs)", "branch-shape", ok, save.Pos(), "a block that does not become the head returns its txs to the pool; one that does goes through onCurrentChanged")
+		// what onCurrentChanged is told: the head as it was before the fork manager moved it and the head as it is afterwards — at every
+		// site (a block-driven and a confirm-driven switch): old = CurrentBlock() read before UpdateFork/UpdateForkForConfirm, new =
+		// CurrentBlock() read after it (the block that triggered the switch need not be the new head: its descendants' txs would stay pooled)
+		cur := c.Method(cons+".DPoVP", "CurrentBlock")
+		upd := []*types.Func{c.Method(cons+".ForkManager", "UpdateFork"), c.Method(cons+".ForkManager", "UpdateForkForConfirm")}
+		nSites := 0
+		for _, s := range c.CallSites(c.Method(cons+".DPoVP", "onCurrentChanged")) {
+			if isTestHelper(c, s.Caller) {
+				continue
+			}
+			nSites++
+			a := s.Instr.Common().Args
+			okOld, okNew := false, false
+			if len(a) == 3 {
+				us := core.CallsIn(s.Caller, upd...)
+				for v := range core.SliceShallow(a[1]) {
+					if g, is := isCallOf(v, cur); is {
+						for _, u := range us {
+							if core.Dominates(g, u) {
+								okOld = true
+							}
+						}
+					}
+				}
+				if g, is := isCallOf(a[2], cur); is {
+					for _, u := range us {
+						if core.Dominates(u, g) {
+							okNew = true
+						}
+					}
+				}
+			}
+			c.Check("onCurrentChanged(CurrentBlock-before,CurrentBlock-after)@"+shortFn(s.Caller), "value-flow", okOld && okNew, s.Instr.Pos(), "the pool is adjusted from the head before the fork update to the head after it")
+		}
+		c.Floor("onCurrentChanged/sites", nSites, 2)
 	})
 
 	c.Clause("C18.5", "txs that enter the pool from another fork are filtered against the current fork before they can be packaged")
